@@ -21,6 +21,8 @@ def main(argv=None):
     n, mism = CU.cross_check(src, seed, 50 if tier == "quick" else 1000)
     run.crosscheck = {"functions": 2, "inputs": n, "mismatches": len(mism)}
     if mism: run.fault("engine/CPython cross-check mismatch: %r" % (mism[0],))
+    from bounded import utilsforms
+    run.add_bounded("argument forms (numpy scalars/arrays, ints)", utilsforms.family(seed, 400 if tier == "quick" else 20000))
     run.trusted.update(["float treated as real (no rounding/overflow)", "CPython semantics of + - * / on floats as encoded by pyvc"])
     return run.finish()
 
